@@ -126,6 +126,22 @@ def obligations(tier, rng):
     for f in [('geq', X, C), ('always_t', ('implies', ('geq', X, C), ('eventually_t', ('leq', Y, C), 0, 1)), 0, 1), ('or', ('geq', X, C), ('once', ('leq', Y, C))),
               ('eventually', ('geq', X, C)), ('not', ('historically', ('geq', X, C)))]:
         out.append(ob('C20', 'reuse', 'reuse/%s/N=3' % text(f), f=f, N=3, max_paths=40000, wall=600))
+    # depth 3: a temporal operator over a Boolean combination with another temporal operator - the inner operator is asked
+    # to explain SEVERAL disjoint intervals at once
+    GA, GB = ('geq', X, ('const', 0.0)), ('geq', Y, ('const', 0.0))
+    outers = [lambda g: ('eventually_t', g, 0, 3), lambda g: ('always_t', g, 0, 3), lambda g: ('eventually', g), lambda g: ('always', g),
+              lambda g: ('once_t', g, 0, 3), lambda g: ('historically_t', g, 0, 3), lambda g: ('next', ('eventually_t', g, 0, 2))]
+    inners = [lambda a: ('eventually_t', a, 0, 1), lambda a: ('always_t', a, 0, 1), lambda a: ('once_t', a, 0, 1), lambda a: ('historically_t', a, 0, 1),
+              lambda a: ('once', a), lambda a: ('historically', a), lambda a: ('eventually', a), lambda a: ('always', a)]
+    for oi, o in enumerate(outers):
+        for ii, i in enumerate(inners):
+            for c in ('and', 'or', 'implies'):
+                if quick and (oi + ii) % 2 and c != 'and':
+                    continue
+                f = o((c, i(GA), GB))
+                if refsem.has(f, {'once_t', 'historically_t', 'once', 'historically'}) and f[0] in ('once_t', 'historically_t'):
+                    f = ('eventually_t', f, 0, 2)        # a past operator at the top only sees sample 0: put it under a future one
+                out.append(ob('C20', 'explain', 'depth3/%s/N=%d' % (text(f), 5 if quick else 6), f=f, N=5 if quick else 6, max_paths=100000, wall=900))
     # the same variable under two temporal operators with different (nested / overlapping) windows
     G1, G2 = ('gt', X, ('const', 0.0)), ('gt', X, ('const', 1.0))
     tops = [('eventually_t', 0, 5), ('always_t', 2, 3), ('eventually_t', 1, 2), ('always_t', 0, 4), ('once_t', 0, 1), ('historically_t', 0, 2),
